@@ -138,6 +138,15 @@ def decodeAny (ver : String) (hex : String) : Option PktL :=
   let b := parseHex hex
   if ver == "4" then decodeV4 b else decodeV6 b
 
+/-- the datagram with its TTL / hop-limit byte replaced (a caller editing the packet object in place between two calls) -/
+def decodeEdited (ver : String) (hex : String) (newTtl : String) : Option PktL :=
+  let b := parseHex hex
+  if newTtl == "" then (if ver == "4" then decodeV4 b else decodeV6 b)
+  else
+    let i := if ver == "4" then 8 else 7
+    let b' := b.take i ++ [parseNat newTtl % 256] ++ b.drop (i + 1)
+    if ver == "4" then decodeV4 b' else decodeV6 b'
+
 /-- one step of a `hist` op: new live database and the answer -/
 def histStep (db : Db) (step : String) : Db × String :=
   let a := (step.splitOn ":").toArray ++ Array.replicate 8 ""
@@ -150,7 +159,7 @@ def histStep (db : Db) (step : String) : Db × String :=
   | "D" => (db, dbStr db)
   | "N" => (db, s!"len={db.len}")
   | "T" =>
-    match decodeAny a[1]! a[2]! with
+    match decodeEdited a[1]! a[2]! a[6]! with
     | none => (db, "SKIP illframed")
     | some p =>
       match apiFpTcp db p (parseNat a[3]!) (parseInt a[4]!) with
